@@ -542,6 +542,11 @@ def check_contract(rep: Report, repo, con, registry, known_open, budget_ms, kmax
             "reason": "recorded as undecided on the unchanged tree: attempted in the thorough tier only"} for i in G.instances]
     rep.solver_ms += sum(r["ms"] for r in res)
     by = aggregate(G, res, theory)
+    for o in by.values():
+        if o.status == "refuted" and "@model." in o.oid:
+            # a side condition of a library model (e.g. the receiver of Variable.intervene must be a plain variable), not a clause of
+            # the contract: when it fails the code has left the modelled subset, which is never a violation
+            o.status, o.reason = "undecided", "the code leaves the modelled subset here (side condition of a library model); the bounded stand-in decides"
     open_oids = [o.oid for o in by.values() if o.status != "discharged"]
     if len(rep.samples) < 4:
         import z3
